@@ -220,7 +220,9 @@ SPECS['C01'] = dict(
                  'all resolved at quiescence', timeout=(300, 1500)), 12)
         + parts(ch('faults', 'harness.c01', 'h_fault', 'workers die with any status mid-task or idle, ticks and clock advances interleaved: '
                    'WorkerLostError only for the job whose worker died holding it', timeout=(300, 1500)), 18)
-        + parts(twin('faults', 'harness.c01', 'h_fault_twin', 'a run reporting a lost job exists'), 3)[:0]
+        + parts(twin('dispatch', 'harness.c01', 'h_dispatch_twin', 'a run handling a duplicate message exists'), 12)
+        + parts(twin('faults', 'harness.c01', 'h_fault_twin', 'a run reporting a lost job exists'), 18)
+        + parts(twin('terminate-job', 'harness.c01', 'h_term_twin', 'a run terminating a busy worker exists'), 6)
         + parts(ch('terminate-job', 'harness.c01', 'h_term', 'terminate_job on a busy worker: Terminated for exactly its job', timeout=(300, 1500)), 6)
         + parts(ch('send-failure', 'harness.c01', 'h_send', 'a task that cannot be written (symbolic index): the failure lands on that job and only it; '
                    'every job still resolves', timeout=(300, 1500)), 3)
@@ -420,4 +422,81 @@ SPECS['C18'] = dict(
         ch('hostile-verdict', 'harness.c18', 'h_hostile_verdict', 'the answering side completes only on the exact welcome message', timeout=(300, 1500), nontrivial_witness=True),
         ch('key-type', 'harness.c18', 'h_keytype', 'str / int / bytearray keys raise TypeError before any handshake message', timeout=(120, 600), nontrivial_witness=True),
     ],
+)
+
+SPECS['C17'] = dict(
+    level='model_checking',
+    engine='E2 py2ts + z3 BMC',
+    technique='bounded model checking (z3 bit-vectors) of the transition system compiled from the real Python source',
+    explanation='Solver-based bounded model checking: the current source of synchronize.Condition.wait/notify/notify_all and '
+                'Event.is_set/set/clear/wait is compiled (Python AST -> instruction list over semaphore and mutex operations) and z3 decides, '
+                'over ALL interleavings at semaphore-operation granularity with timeouts firing at any step, that untimed waiters present '
+                'before a notification are woken, notify wakes at most one, a timed-out wait returns False and leaves the condition '
+                'consistent, no assertion of the real code fails, no deadlock, and Event results match the flag. Each unsat answer is '
+                'accompanied by an unsat unwinding assertion and a sat reachability witness; witness and counterexample schedules are '
+                'replayed step by step against the real classes in real threads.',
+    functions=['billiard.synchronize.Condition.wait', 'Condition.notify', 'Condition.notify_all', 'Event.is_set', 'Event.set', 'Event.clear',
+               'Event.wait', 'Lock/RLock/Semaphore/BoundedSemaphore.__init__ (CrossHair)'],
+    bounds={'quick': 'Condition: 2 waiters (timed or not, symbolic) || 1 notifier doing 1 operation (notify/notify_all, symbolic), K=35 steps (2 operations, K=54, thorough only); '
+                     'Event: {wait,wait,set}, {wait,set,clear}, {is_set,set,wait}, K=37..51; 6-bit counters; lock recursion depth 1',
+            'thorough': 'plus 3 waiters || 1 operation (K=48)'},
+    outside=['more threads / operations than listed', 'Condition.wait_for (a loop around wait with clock arithmetic)', 'RLock recursion depth > 1',
+             'the kernel semaphore itself (trusted: mutual exclusion, counting, bounded release)'],
+    assumptions=['semaphore model: acquire decrements if positive, non-blocking fails at zero, a timed blocking acquire may give up at any step at '
+                 'which the value is zero, release increments; validated against the real SemLock on all single-thread sequences of length 5 every run',
+                 'thread-local statements are fused into the preceding shared operation (scheduling points = semaphore/mutex operations)'],
+    trusted_base=['z3 5.1.0', 'vlib/py2ts.py translator (fails loudly outside its grammar)', 'CPython _multiprocessing.SemLock', 'CrossHair 0.0.110 (wrappers)'],
+    obligations=[
+        smt('semaphore-model', 'harness.c17', 'v_semaphore_model', 'semaphore model == real SemLock on short sequences', kind='validate'),
+        smt('conformance', 'harness.c17', 'v_conformance', 'solver-found witness runs replay step by step on the real classes (model vs implementation)', kind='validate', timeout=(600, 1200)),
+        smt('cond-2w-1op', 'harness.c17', 'ob_cond_2w_1op', 'W1-W7 on 2 waiters || notify/notify_all', timeout=(900, 3000), replay_function='replay'),
+        smt('cond-2w-2ops', 'harness.c17', 'ob_cond_2w_2ops', 'W1-W7 on 2 waiters || two successive notifications (22 min)', timeout=(1500, 4000), replay_function='replay', thorough_only=True),
+        smt('event-wait-wait-set', 'harness.c17', 'ob_event_wws', 'E1-E7', timeout=(900, 3000), replay_function='replay'),
+        smt('event-wait-set-clear', 'harness.c17', 'ob_event_wsc', 'E1-E7', timeout=(900, 3000), replay_function='replay'),
+        smt('event-isset-set-wait', 'harness.c17', 'ob_event_isw', 'E1-E7', timeout=(900, 3000), replay_function='replay'),
+        smt('cond-3w-1op', 'harness.c17', 'ob_cond_3w_1op', 'W1-W7 on 3 waiters', timeout=(3000, 7000), replay_function='replay', thorough_only=True),
+        ch('wrappers', 'harness.c17', 'h_wrappers', 'Lock/RLock/Semaphore/BoundedSemaphore pass (kind, value, maxvalue) to SemLock as documented', timeout=(120, 600), nontrivial_witness=True),
+    ],
+)
+
+SPECS['C02'] = dict(
+    level='other',
+    explanation='Solver-based: CrossHair runs the real map/starmap/imap/imap_unordered/apply code (chunking, result assembly, in-order release, '
+                'length announcement, exception rebuild through a real pickle round trip) in the stubbed process world; input length, chunk '
+                'size (explicit or defaulted), the set of raising positions and the order in which workers take/finish chunks and the result '
+                'handler runs are solver variables; the oracle is the sequential map. z3 proves the chunk-tiling arithmetic for c<=64, n<=64.',
+    functions=['billiard.pool.Pool._map_async', 'Pool._get_tasks', 'mapstar', 'starmapstar', 'MapResult.__init__/_set/_ack', 'IMapIterator._set/_set_length/next',
+               'IMapUnorderedIterator._set', 'TaskHandler.body (set_length)', 'ApplyResult.get', 'billiard.einfo.ExceptionInfo/ExceptionWithTraceback/rebuild_exc'],
+    bounds={'quick': 'n <= 4 items, chunk size 0(None)..3, pool of 1..2, any subset of raising positions, 6 symbolic scheduling events then run to completion',
+            'thorough': 'n <= 6, chunk <= 7, 8 events'},
+    outside=['"arguments and results unchanged up to pickling" for arbitrary objects (pickle is C; payloads are tagged tuples)', 'imap with chunksize > 1 '
+             '(flattening generator)', 'pool sizes above 2'],
+    assumptions=POOL_ASSUME + ['result payloads cross the fake pipe through pickle.loads(pickle.dumps(.))'],
+    trusted_base=TRUST + ['pickle (C)'],
+    obligations=(
+        [smt('L-chunking', 'harness.c02', 'l_chunking', 'slices tile [0,n); slice count n//c+bool(n%c); defaulted chunk size >= 1')]
+        + parts(ch('sequential', 'harness.c02', 'h_seq', 'result == sequential map (values, order / multiset, exception type+args with remote traceback, '
+                   'imap error at the failing position then the rest)', timeout=(400, 1800)), 10)
+        + parts(twin('sequential', 'harness.c02', 'h_seq_twin', 'the job runs to completion'), 10)
+    ),
+)
+
+SPECS['C07'] = dict(
+    level='other',
+    explanation='Solver-based: CrossHair runs the real close()/join() path - TaskHandler.body with its sentinels, ResultHandler.finish_at_shutdown, '
+                '_join_exited_workers(shutdown=True), worker joins - in the stubbed process world with every job kind pending at a symbolic '
+                'stage of progress; while the result handler sleeps in poll() a symbolically chosen worker moves. Checked: jobs offered after '
+                'close are refused, one sentinel per worker and one for the result handler, join returns (budgeted stubs: exhausting the '
+                'budget is a hang), every job has its real result, every worker exited, nobody waited out the 30 s consumption guard.',
+    functions=['billiard.pool.Pool.close', 'Pool.join', 'TaskHandler.body', 'TaskHandler.tell_others', 'ResultHandler.finish_at_shutdown',
+               'ResultHandler.on_stop_not_started', 'Pool._join_exited_workers', 'PoolThread.stop'] + POOL_FUNCS[:12],
+    bounds={'quick': 'pool of 1..2; 3 apply jobs or one map/imap/imap_unordered of 3 parts; 3 events of progress before close()', 'thorough': '4 events'},
+    outside=['that real threads stop and real children are reaped; wall-clock', 'recycling pools at shutdown (observed: queued jobs are not run once the last worker retired)',
+             'the time-limit scanner thread'],
+    assumptions=POOL_ASSUME + ['helper threads are played by the harness on one thread (feeder turn = real TaskHandler.body; workers move while the result handler polls)'],
+    trusted_base=TRUST,
+    obligations=(
+        parts(ch('close-join', 'harness.c07', 'h_close_join', 'close() then join(): drains, refuses late jobs, sentinels, no hang, workers gone, no 30 s guard', timeout=(400, 1800)), 8)
+        + parts(twin('close-join', 'harness.c07', 'h_close_join_twin', 'join() returns in some run'), 8)
+    ),
 )
